@@ -618,7 +618,13 @@ func (w *world) prim(c *chn, op string, st *kernel.Step) {
 	b0 := w.fdb.n
 	w.opImages, w.opFailed = w.opImages[:0], false
 
+	if op == "set-withdrawn" && st != nil && st.Int("failw") > 0 && w.mode == modeViews {
+		// C11 under a write error: the failw-th write of this removal fails; the
+		// channel is then half removed ("dead": neither live nor removed)
+		w.fdb.failRel = int(st.Int("failw"))
+	}
 	err, pan, applicable := w.exec(c, op, st)
+	w.fdb.failRel = 0
 	if !applicable {
 		w.logf("ch%d %s skipped (not applicable)", c.i, op)
 		return
@@ -696,9 +702,16 @@ func (w *world) prim(c *chn, op string, st *kernel.Step) {
 			w.checkAfterWriteErr(c, op, before, after)
 		case modeViews:
 			// reference first: the views are compared with the state after the operation
-			c.ref = after
-			if after == nil {
-				c.removed = true
+			if w.opFailed {
+				// an injected write error interrupted the operation: the channel is
+				// abandoned; every other channel must be unaffected
+				c.dead, c.ref = true, nil
+				w.res.Count("probe.half-removed", 1)
+			} else {
+				c.ref = after
+				if after == nil {
+					c.removed = true
+				}
 			}
 			w.checkViews(c, op)
 		}
@@ -818,7 +831,7 @@ func (w *world) do(st *kernel.Step) {
 		if c.m.Phase() != channel.Withdrawing {
 			sub("set-withdrawing")
 		}
-		sub("set-withdrawn")
+		sub("set-withdrawn", "failw", st.Int("failw"))
 	default:
 		w.prim(c, st.Op, st)
 	}
@@ -1199,6 +1212,9 @@ func (w *world) checkViews(c *chn, op string) {
 			w.fail("C11.panic@restore", "RestoreChannel of channel %d panicked after %s on channel %d: %v", y.i, op, c.i, v.pan)
 			return
 		}
+		if y.dead {
+			continue // half removed after an injected write error: may or may not be restorable
+		}
 		if y.removed {
 			if v.s != nil {
 				w.fail("C11.removed-restorable", "removed channel %d can still be restored (%s) after %s on channel %d", y.i, v.s.brief(), op, c.i)
@@ -1258,6 +1274,14 @@ func (w *world) checkViews(c *chn, op string) {
 				return
 			}
 		}
+		for _, y := range w.chs {
+			if y.dead && y.lists(p) {
+				wantPeers["may:"+peerKey(p)] = true
+				if _, ok := l.snaps[y.id]; ok {
+					want++ // a half-removed channel may still be listed
+				}
+			}
+		}
 		if len(l.ids) != want {
 			w.fail("C11.restorepeer-extra", "after %s on channel %d: RestorePeer(peer %d) yields %d channels, %d live channels list this peer", op, c.i, pi, len(l.ids), want)
 			return
@@ -1283,14 +1307,23 @@ func (w *world) checkViews(c *chn, op string) {
 			w.fail("C11.activepeers-duplicate", "after %s on channel %d: ActivePeers lists a peer twice", op, c.i)
 			return
 		}
+		if !wantPeers[k] && wantPeers["may:"+k] {
+			continue // peer of a half-removed channel only
+		}
 		gotPeers[k] = true
 		if !wantPeers[k] {
 			w.fail("C11.activepeers-extra", "after %s on channel %d: ActivePeers lists a peer of no live channel", op, c.i)
 			return
 		}
 	}
-	if len(gotPeers) != len(wantPeers) {
-		w.fail("C11.activepeers-missing", "after %s on channel %d: ActivePeers lists %d peers, the live channels have %d", op, c.i, len(gotPeers), len(wantPeers))
+	nWant := 0
+	for k := range wantPeers {
+		if !strings.HasPrefix(k, "may:") {
+			nWant++
+		}
+	}
+	if len(gotPeers) != nWant {
+		w.fail("C11.activepeers-missing", "after %s on channel %d: ActivePeers lists %d peers, the live channels have %d", op, c.i, len(gotPeers), nWant)
 		return
 	}
 
@@ -1323,6 +1356,11 @@ func (w *world) checkViews(c *chn, op string) {
 		if got.stale != "" || got.f != y.ref.f {
 			w.fail("C11.restoreall-mismatch@"+mismatchClass(got, y.ref), "after %s on channel %d: RestoreAll yields channel %d differing in [%s] %s", op, c.i, y.i, diffNames(got, y.ref), got.stale)
 			return
+		}
+	}
+	for _, y := range w.chs {
+		if _, ok := all.snaps[y.id]; ok && y.dead {
+			want++ // a half-removed channel may still be listed
 		}
 	}
 	if len(all.ids) != want {
